@@ -28,6 +28,11 @@ def configs(tier):
     # TreeError, ValueError ... subclasses), whatever the library itself raises and catches internally
     for kind, fl in (("mixin", "attr"), ("light", "attr"), ("mixin", "tree"), ("node", "value"), ("light", "loop")):
         out.append(dict(kind=kind, n=3, cfg=dict(CFG, nonnode=False, extras=False), hidden=False, d=1, assertions=0, judge="c16", snap=True, flavour=fl))
+    # hooks that detach ANOTHER node themselves (a companion taken along): every hook call, nested or not, still observes what
+    # the statement says - in particular no detach hook fires for a node that is already a root
+    for kind in ("mixin", "light"):
+        out.append(dict(kind=kind, n=3, cfg=dict(CFG, nonnode=False, extras=False), hidden=False, d=0, assertions=0, judge="c16", snap=True,
+                        reenter=True, name="%s N=3 hooks that detach a node re-entrantly (monitor law only) A=0" % kind))
     # hooks put on the class only after nodes of it have been linked once
     for kind in ("late", "late:light", "insthook"):
         out.append(dict(kind=kind, n=3, cfg=dict(CFG), hidden=False, d=1, assertions=0, judge="c16", snap=True))
@@ -55,7 +60,7 @@ def run(tier):
     return {
         "tally": t,
         "coverage": cov,
-        "guards": ("exact_logs_compared", "silent_calls", "monitor_runs", "post_hook_faults_on_parent_assignment"),
+        "guards": ("reentrant_monitor_runs", "exact_logs_compared", "silent_calls", "monitor_runs", "post_hook_faults_on_parent_assignment"),
         "assumptions": ["hooks observe and may raise but do not mutate the tree",
                         "the hook sequence of a children assignment refused with LoopError is not fixed by the statement; "
                         "only the monitor law is applied to it"],
